@@ -3,7 +3,9 @@
 import json
 import os
 
-from .common import VERIF
+import tempfile
+
+from .common import REPO, VERIF
 
 SCHEMA = "/root/.vp/EVIDENCE.schema.json"
 
@@ -28,8 +30,12 @@ def write(prop: str, tier: str, seed: int, coverage: dict, wall_s: float, violat
                 jsonschema.validate(data, json.load(handle))
     except ImportError:
         pass
-    os.makedirs(os.path.join(VERIF, "evidence"), exist_ok=True)
-    path = os.path.join(VERIF, "evidence", f"{prop}.json")
+    directory = os.path.join(VERIF, "evidence")
+    if os.path.abspath(REPO) != "/repo":
+        # a run against a scratch copy (mutant self-test, seeded change) must not overwrite the evidence of /repo
+        directory = os.path.join(tempfile.gettempdir(), "verif_scratch_evidence")
+    os.makedirs(directory, exist_ok=True)
+    path = os.path.join(directory, f"{prop}.json")
     tmp = path + ".tmp"
     with open(tmp, "w", encoding="utf-8") as handle:
         json.dump(data, handle, indent=1, sort_keys=True, default=str)
